@@ -18,6 +18,7 @@ FAMILIES = {
     "abuseB": {"quick": 400, "thorough": 8000},     # legal prefix + protocol violations / legal-but-unusual frames + probe, both roles
     "floodBs": {"quick": 50, "thorough": 1500},     # hostile scripted client floods a real server with small limits (rapid reset, refused streams, tiny/empty DATA, CONTINUATION, PING/SETTINGS, stream errors, oversize lists), slow / non-accepting application, blocked writes; dense statistics
     "floodBc": {"quick": 50, "thorough": 1500},     # hostile scripted server floods a real client (PUSH_PROMISE, 1xx, tiny/empty DATA, PING/SETTINGS, CONTINUATION, promise+reset)
+    "inlineA": {"quick": 600, "thorough": 12000},   # C20: handle operations executed INSIDE the read / write / flush callbacks of the connection task (parked handles), real client <-> real server
     "conformSend": {"quick": 40, "thorough": 1500},
     "conformStreams": {"quick": 150, "thorough": 3000},  # TLC simulation runs of MC_Streams (stream store / counters, server role) replayed on the real server
     "conformRecv": {"quick": 80, "thorough": 3000},  # TLC simulation runs of MC_Recv replayed on the real server (byte-exact)  # TLC simulation runs of MC_Send (x ~3 behaviours each) replayed on the real client
@@ -64,5 +65,7 @@ PLAN = {
             "must_hit": ["C18.store_bound", "C18.recv_buffer_bound", "C18.send_buffer_bound", "C18.quota_counters", "C18.continuation_bound", "C18.owed_replies_bound"]},
     "C19": {"rules": ["C19."], "families": WIRE_AB + ["conformStreams"], "slices": [STREAMS_SLICE], "level": "model_checking",
             "must_hit": ["C19.forgotten", "C19.counts_idle", "C19.flow_idle", "C19.idle_close", "C19.no_premature_close"]},
+    "C20": {"rules": ["C"], "families": ["inlineA"], "slices": [SEND_SLICE], "level": "exploration", "all_known": True,
+            "must_hit": ["C01.data", "C02.stream_credit", "C03.conn_overcredit", "C16.stream_bound", "C17.single_rst", "C08.run_without_panic"]},
     "C17": {"rules": ["C17."], "families": WIRE_AB, "slices": [], "level": "exploration", "must_hit": ["C17.single_rst"]},
 }
